@@ -16,6 +16,9 @@ from .. import corpus
 from .. import annetenv as E
 
 
+_W = [0]
+
+
 def both(hw, fmt, old, new, files=None):
     """the two front ends are called separately (an error of one must be an error of the other); with `files` = (old path, new path) the
     file worker is driven on disk as well: the SAME two paths are rewritten in place for every case of the run"""
@@ -40,9 +43,12 @@ def both(hw, fmt, old, new, files=None):
         out["ferr"], out["fexc"] = True, repr(e)
     if files is not None and dpatch is not None and not out["ferr"]:
         vfmt = E.registry().match(hw).make_formatter()
+        # a dump may carry a common leading offset on every line (a fragment pasted from a larger file): the reader subtracts it
+        _W[0] += 1
+        margin = "  " if _W[0] % 3 == 0 else ""
         for path, t in zip(files, (old, new)):
             with open(path, "w") as f:
-                f.write(vfmt.join(t))
+                f.write("\n".join(margin + ln for ln in vfmt.join(t).split("\n")))
         args = types.SimpleNamespace(hw=hw, add_comments=False, indent="  ")
         from annet.annlib import tabparser
         try:
